@@ -377,6 +377,8 @@ class FD:
     def _assign(self, states, i, vals):
         """Assign value set to key i in each state; split small sets."""
         out = []
+        if vals is None and self.keys[i].domain is not None and len(self.keys[i].domain) <= self.split:
+            vals = self.keys[i].domain
         for s in states:
             if vals is not None and 1 < len(vals) <= self.split:
                 for v in sorted(vals):
